@@ -556,7 +556,7 @@ def drive_pass(rd, src, flt, route):
 
 
 def pass_meta(res):
-    return dict(delivered=[c[:10] for c in res["chunks"]][:16], loads=[(e["req"], e["failed"]) for e in res["att"]][:24],
+    return dict(delivered=None if res["chunks"] is None else [c[:10] for c in res["chunks"]][:16], loads=[(e["req"], e["failed"]) for e in res["att"]][:24],
                 raised=repr(res["err"]) if res["err"] is not None else None, failed_loads=res["fired"], attempts_failed=res["fa"])
 
 
